@@ -29,6 +29,9 @@ def random_type(rng, depth=2, sizes=SIZES):
     return (kind, [random_type(rng, depth - 1, sizes) for _ in range(k)])
 
 
+POOL_TY = {}      # id(PhysicalAxis) -> repr of the index type it was created for (axes in `pool` are alive, so ids are unique)
+
+
 def axis_for(rng, ty, pool, p_dense=0.25, p_share=0.3):
     """an axis inhabiting `ty`; `pool` = list of PhysicalAxes created so far (for sharing)"""
     n = ty_numel(ty)
@@ -37,10 +40,15 @@ def axis_for(rng, ty, pool, p_dense=0.25, p_share=0.3):
     if ty[0] == 'atom' or rng.random() < p_dense:
         if n == 1:
             return unitAxis
-        cands = [k for k in pool if k._numel == n]
+        # a physical axis is shared (diagonal) only between positions of the SAME index type: the library's typing
+        # discipline (unification of a sum with a product of equal size is an "index type mismatch")
+        cands = [k for k in pool if k._numel == n and POOL_TY.get(id(k)) == repr(ty)]
         if cands and rng.random() < p_share:
             return rng.choice(cands)
         k = PhysicalAxis(n)
+        POOL_TY[id(k)] = repr(ty)
+        if len(POOL_TY) > 100000:
+            POOL_TY.clear()
         pool.append(k)
         return k
     if ty[0] == 'prod':
